@@ -241,6 +241,23 @@ func setup() {
 	add("pkcs12.DecodeAll", true, [][]byte{pfx}, func(b []byte) { pkcs12.DecodeAll(b, "pw") })
 	add("pkcs12.Decode", true, [][]byte{pfx}, func(b []byte) { pkcs12.Decode(b, "pw") })
 	add("pkcs12.ToPEM", true, [][]byte{pfx}, func(b []byte) { pkcs12.ToPEM(b, "pw") })
+	// the same decoders behind a VALID MAC: after the perturbation the stored MAC digest is replaced by the one the
+	// new content needs (hook), as somebody who knows the password could do; the parsers and the decryption behind
+	// the MAC check are then reached by every mutant instead of by none
+	remac := func(b []byte) []byte {
+		stored, wanted, err := pkcs12.VerifMacDigests(b, "pw")
+		if err != nil || len(stored) != len(wanted) || len(stored) == 0 {
+			return b
+		}
+		if i := bytes.LastIndex(b, stored); i >= 0 {
+			out := append([]byte(nil), b...)
+			copy(out[i:], wanted)
+			return out
+		}
+		return b
+	}
+	add("pkcs12.DecodeAll(reMAC)", true, [][]byte{pfx}, func(b []byte) { pkcs12.DecodeAll(remac(b), "pw") })
+	add("pkcs12.ToPEM(reMAC)", true, [][]byte{pfx}, func(b []byte) { pkcs12.ToPEM(remac(b), "pw") })
 	// SM2 ciphertexts, signatures, points
 	ct, _, _, _ := cv.Encrypt(key.Pub, []byte("sm2 plaintext for decoder seeds"), big.NewInt(424242), rsm2.C1C3C2)
 	ct2, _, _, _ := cv.Encrypt(key.Pub, []byte("x"), big.NewInt(99), rsm2.C1C2C3)
